@@ -448,3 +448,6 @@ def run(ctx: Ctx, rep: Report, tier: str):
                       "only after that join - or never, if the caller holds what the service waits for)" % (c_.name, lost))
     if n14 == 0:
         raise AnalysisError("no stop() override found in any Runnable subclass")
+    from rules.common import wait_joins_unless_own_thread
+    rep.rule("C18.L15", "wait() really waits (C15.R5): exact join condition", 1)
+    section(rep, lambda: wait_joins_unless_own_thread(ctx, rep, "C18.L15"))
